@@ -555,3 +555,127 @@ pub fn run(args: &Args) -> Report {
     rep.count("programs", i);
     rep
 }
+
+// ---------------------------------------------------------------------------------------------
+// Owner dies INSIDE acquire / release of the robust index set (atomic-operation death points):
+// recovery of the dead owner must give back exactly what it held, afterwards every index is
+// acquirable again and nothing is counted as borrowed.
+#[cfg(iceoryx2_verif)]
+mod midop {
+    use super::*;
+    use iceoryx2_bb_concurrency::verif::{set_hook, OpKind, Phase};
+    use std::sync::atomic::{AtomicU64, Ordering::Relaxed};
+
+    static COUNT: AtomicU64 = AtomicU64::new(0);
+    static DIE_AT: AtomicU64 = AtomicU64::new(0);
+    struct Died;
+
+    fn hook(_p: Phase, _k: OpKind, _a: usize, _w: bool) {
+        let c = COUNT.fetch_add(1, Relaxed) + 1;
+        if c == DIE_AT.load(Relaxed) {
+            std::panic::resume_unwind(Box::new(Died));
+        }
+    }
+    fn armed<R>(die_at: u64, f: impl FnOnce() -> R) -> Result<R, ()> {
+        COUNT.store(0, Relaxed);
+        DIE_AT.store(die_at, Relaxed);
+        set_hook(Some(hook));
+        let r = std::panic::catch_unwind(std::panic::AssertUnwindSafe(f));
+        set_hook(None);
+        match r {
+            Ok(v) => Ok(v),
+            Err(p) => {
+                if p.downcast_ref::<Died>().is_some() { Err(()) } else { std::panic::resume_unwind(p) }
+            }
+        }
+    }
+
+    fn case<const CAP: usize>(rep: &mut Report, live_held: usize, victim_releases: bool, lock_mode: bool) {
+        let live = OwnerId::new(7).unwrap();
+        let dead = OwnerId::new(DEAD).unwrap();
+        let mut k = 1u64;
+        loop {
+            let s = StaticRobustUniqueIndexSet::<CAP>::new();
+            let mut live_idx = Vec::new();
+            for _ in 0..live_held {
+                if let Ok(i) = s.acquire(live) {
+                    live_idx.push(i);
+                }
+            }
+            let victim_idx = if victim_releases { s.acquire(dead).ok() } else { None };
+            if victim_releases && victim_idx.is_none() {
+                return;
+            }
+            let mode = if lock_mode { ReleaseMode::LockIfLastIndex } else { ReleaseMode::Default };
+            let r = match victim_idx {
+                Some(i) => armed(k, || s.release(i, dead, mode).is_ok()),
+                None => armed(k, || s.acquire(dead).is_ok()),
+            };
+            let died = r.is_err();
+            rep.execs += 1;
+            let what = format!("{} interrupted before its atomic operation #{} (capacity {}, {} indices held by a live owner{})", if victim_releases { if lock_mode { "release(LockIfLastIndex)" } else { "release" } } else { "acquire" }, k, CAP, live_idx.len(), if died { "" } else { "; call completed" });
+            let opn = if victim_releases { "release" } else { "acquire" };
+            // the survivor recovers the dead owner
+            let mut got = Vec::new();
+            s.recover(ReleaseMode::Default, |o, _| o == dead, |_, i| got.push(i));
+            if got.iter().any(|i| live_idx.contains(i)) {
+                rep.violation("recover_wrong_index", format!("C09:midop:{}:recover_wrong_index", opn), format!("{}: recover of the dead owner returned {:?}, the live owner holds {:?}", what, got, live_idx), Json::obj());
+            }
+            let locked = s.is_locked();
+            if locked && !(lock_mode && victim_releases && live_idx.is_empty()) {
+                rep.violation("locked_without_report", format!("C09:midop:{}:locked_without_report", opn), format!("{}: the set is locked afterwards", what), Json::obj());
+            }
+            if !locked {
+                // nothing of the dead owner may remain: the live owner can take every other index, and the count agrees
+                let b = s.borrowed_indices();
+                if b != live_idx.len() {
+                    rep.violation("borrowed_count_wrong", format!("C09:midop:{}:borrowed_count_wrong", opn), format!("{}: after recover borrowed_indices() = {} but only the live owner's {} are held", what, b, live_idx.len()), Json::obj());
+                }
+                let mut extra = Vec::new();
+                while let Ok(i) = s.acquire(live) {
+                    extra.push(i);
+                    if extra.len() > CAP {
+                        break;
+                    }
+                }
+                if extra.len() + live_idx.len() != CAP || extra.iter().any(|i| live_idx.contains(i)) {
+                    rep.violation("index_leaked_by_dead_owner", format!("C09:midop:{}:index_leaked_by_dead_owner", opn), format!("{}: after recover the live owner could acquire {:?} in addition to {:?} of capacity {}", what, extra, live_idx, CAP), Json::obj());
+                }
+            }
+            if died {
+                rep.nontrivial += 1;
+                rep.distinct(vkit::fnv_str(&format!("{}{}{}{}{}", CAP, live_held, victim_releases, lock_mode, k)));
+                rep.count("owner_died_inside_operation", 1);
+                k += 1;
+            } else {
+                break;
+            }
+        }
+    }
+
+    pub fn run(_args: &Args) -> Report {
+        let mut rep = Report::new();
+        macro_rules! grid {
+            ($cap:literal) => {
+                for held in 0..$cap {
+                    case::<$cap>(&mut rep, held, false, false);
+                    case::<$cap>(&mut rep, held, true, false);
+                    case::<$cap>(&mut rep, held, true, true);
+                }
+            };
+        }
+        grid!(1);
+        grid!(2);
+        grid!(3);
+        rep.sample(Json::obj().set("victim_operations", "acquire, release, release(LockIfLastIndex)").set("death_points", "before every atomic operation of the call").set("capacities", "1-3"));
+        rep
+    }
+}
+#[cfg(iceoryx2_verif)]
+pub fn run_midop(args: &Args) -> Report {
+    midop::run(args)
+}
+#[cfg(not(iceoryx2_verif))]
+pub fn run_midop(_args: &Args) -> Report {
+    Report::new()
+}
